@@ -342,7 +342,7 @@ func (c *Call) Canon() Obs {
 func (c *Call) CLI(extraEnv []string, threads int) (Obs, engine.CLIResult) {
 	args, stdin, outfile, cleanup := c.cliArgs(threads)
 	defer cleanup()
-	r := engine.CLI(stdin, 30*time.Second, extraEnv, args...)
+	r := engine.CLI(stdin, 120*time.Second, extraEnv, args...)
 	return c.cliObs(r, outfile), r
 }
 
@@ -352,7 +352,7 @@ func (c *Call) CLIStdout(threads int, viaStdin bool) Obs {
 	args, stdin, outfile, cleanup := c.cliArgs(threads)
 	defer cleanup()
 	if outfile == "" || c.PairDir {
-		r := engine.CLI(stdin, 30*time.Second, nil, args...)
+		r := engine.CLI(stdin, 120*time.Second, nil, args...)
 		return c.cliObs(r, outfile)
 	}
 	var kept []string
@@ -379,7 +379,7 @@ func (c *Call) CLIStdout(threads int, viaStdin bool) Obs {
 			kept = k2
 		}
 	}
-	r := engine.CLI(stdin, 30*time.Second, nil, kept...)
+	r := engine.CLI(stdin, 120*time.Second, nil, kept...)
 	return c.cliObs(r, "")
 }
 
